@@ -36,6 +36,12 @@ MODES = {
     # an exception raised inside a function decorated with the library's own @benchmark
     "exception_inside_benchmark": ("from pysnark.runtime import benchmark\n@benchmark()\ndef _bf():\n    PrivVal(2) * PrivVal(3)\n    raise ValueError('boom')\n_bf()", False),
     "sys_exit_3": ("sys.exit(3)", False),
+    "sys_exit_minus_1": ("sys.exit(-1)", False),
+    "sys_exit_minus_300": ("sys.exit(-300)", False),
+    "exception_without_message": ("raise ValueError", False),
+    "exception_empty_message": ("raise RuntimeError('')", False),
+    "assertion_error_without_message": ("raise AssertionError", False),
+    "baseexception_subclass_without_message": ("class _Stop(BaseException):\n    pass\nraise _Stop()", False),
     "sys_exit_msg": ("sys.exit('stop: invalid input')", False),
     "sys_exit_empty_str": ("sys.exit('')", False),
     "sys_exit_empty_list": ("sys.exit([])", False),
